@@ -34,7 +34,7 @@ MAP_MUTS = ["setitem", "delitem", "clear", "update", "inner_setitem", "inner_cle
 def floors(ctx):
     q = ctx.tier == "quick"
     f = {"evaluations": 5000 if q else 50000, "mutation_took_effect_on_copy": 1000, "protected_by_immutability": 500,
-         "input_probes": 300, "input_probes_with_unhashable_members": 50}
+         "input_probes": 300, "input_probes_with_unhashable_members": 50, "sibling_key_probes": 200}
     for acc in ("links", "vertices", "u_vertices", "universes", "neighbors", "find_links", "bft", "dft_recursive",
                 "dft_iterative", "ibft", "edge_whitelist"):
         for mode in ("off", "cold", "warm", "off_then_on"):
@@ -246,6 +246,55 @@ def probe_returned(ctx, pool, rng, history):
                 Vertex.NEIGHBOR_CACHING = False
 
 
+def probe_siblings(ctx, pool, rng, history):
+    """
+    What else is already in the cache: query K1, then - for the first time - a sibling key K2 (one of direction /
+    unknown handling changed, the same filter object), mutate what K2 returned, and ask both again.
+    """
+    vs = [o for o in pool.objs.values() if isinstance(o, Vertex)]
+    filters = [None, zoo.f_tagged_edge, zoo.f_accept]
+    dirs = [oracles.FORWARD, oracles.ANY, oracles.BACKWARD]
+    unks = [oracles.NEIGHBOR, oracles.NONNEIGHBOR]
+    for v in vs:
+        d1, u1, f = rng.choice(dirs), rng.choice(unks), rng.choice(filters)
+        if rng.random() < 0.5:
+            d2, u2 = d1, rng.choice([u for u in unks if u != u1])
+        else:
+            d2, u2 = rng.choice([d for d in dirs if d != d1]), u1
+        which = rng.choice(["second", "first"])
+        kind = rng.choice(LIST_MUTS)
+        foreign = rng.choice(vs)
+        Vertex.NEIGHBOR_CACHING = True
+        try:
+            for w in vs:  # cold caches: touch every vertex through a graph-neutral public edit
+                e = DirectedEdge(w, w)
+                w.remove_from_link(e)
+            r1 = oracles.outcome(helpers.neighbors, v, d1, u1, f)
+            r2 = oracles.outcome(helpers.neighbors, v, d2, u2, f)
+            if r1[0] != "ok" or r2[0] != "ok":
+                continue
+            b1, b2 = canon(pool, r1[1]), canon(pool, r2[1])
+            how = mutate(r2[1] if which == "second" else r1[1], kind, foreign)
+            ctx.evaluated()
+            ctx.count("sibling_key_probes")
+            if how != "mutated":
+                continue
+            a1 = oracles.outcome(helpers.neighbors, v, d1, u1, f)
+            a2 = oracles.outcome(helpers.neighbors, v, d2, u2, f)
+            after = (canon(pool, a1[1]) if a1[0] == "ok" else ("raised", a1[1].__name__),
+                     canon(pool, a2[1]) if a2[0] == "ok" else ("raised", a2[1].__name__))
+            if b1 or b2:
+                ctx.nontrivial(("sib", str(b1), str(b2), kind, which))
+            if after != (b1, b2):
+                ctx.violation("returned:neighbors:later_answer_changed:caching_on:sibling_key",
+                              f"neighbors(v, {d1}, {u1}, f) then neighbors(v, {d2}, {u2}, f) (same filter, caching on, cold "
+                              f"caches); after {kind} on the list returned by the {which} call the two queries answer {after} "
+                              f"instead of {(b1, b2)}",
+                              {"kind": "returned", "ops": history, "accessor": "neighbors", "mutation": kind, "mode": "sibling"})
+        finally:
+            Vertex.NEIGHBOR_CACHING = False
+
+
 def probe_inputs(ctx, rng):
     """Containers passed to constructors / builders are copied."""
     def fresh(allow_unhashable=True):
@@ -441,6 +490,7 @@ def run(ctx):
 
             driver.execute(pool, ["mkw", "W9", 3])
         probe_returned(ctx, pool, rng, eng.executed)
+        probe_siblings(ctx, pool, rng, eng.executed)
         if ctx.shard == 0 and i in (0, 7):
             ctx.sample({"pool_history": eng.executed[:30], "probes": "every accessor x caching mode x one random mutation"})
     for _ in range(10 if quick else 30):
@@ -459,6 +509,9 @@ def replay(ctx, case):
     else:
         eng = histories.replay(case["ops"], set())
         for s in range(40):
-            probe_returned(ctx, eng.pool, random.Random(s), case["ops"])
+            if case.get("mode") == "sibling":
+                probe_siblings(ctx, eng.pool, random.Random(s), case["ops"])
+            else:
+                probe_returned(ctx, eng.pool, random.Random(s), case["ops"])
     ctx.nontrivial("replay-a")
     ctx.nontrivial("replay-b")
